@@ -15,7 +15,7 @@ CHECK = {
                     'hash bucket counts far below the sizeof(bucket)*n wrap point (observation outside the stated properties, DESIGN section 4)',
                     'failpoints are injected by link-time interposition of malloc/realloc (--wrap)'],
     'runs': [
-        {'harness': 'faults', 'sources': ['harness/faults.c'], 'configs': both(['dbg-asan'], ['dbg-asan', 'rel-asan'])},
+        {'harness': 'faults', 'sources': ['harness/faults.c'], 'configs': both(['dbg-asan', 'rel-asan'])},
     ],
 }
 
